@@ -199,6 +199,15 @@ def run(tier, seed, replay):
             if cur is not None and cur not in (t, fmt_of[t]):
                 if rep.violation("partial_file", {"case": case}, "rustfmt --backup %s with pre-state %s: the file holds neither the original nor the formatted text" % (nm, ps)):
                     found += 1
+            if ps == "plain" and model is not None:
+                try:
+                    mv = common.run_coq_cases("From V Require Import Base.Text C20.Model C20.Run.\nOpen Scope N_scope.", "",
+                                              ["run_names %s %s" % (coqterm.text(stem), ("(Some %s)" % coqterm.text(ext)) if "." in nm else "None")], "c20names")[0]
+                    want_bk = coqterm.untext(mv[1])
+                    if rc == 0 and listing.get(want_bk) != t:
+                        disagreements.append(({"names": nm}, {"impl": sorted(listing), "model_bk_name": want_bk}))
+                except Exception as ex:
+                    log("C20: names model evaluation failed: %s" % str(ex)[-300:])
             if rc == 0 and (cur != fmt_of[t] or (not collide and listing.get(stem + ".bk") != t)):
                 if rep.violation("success_post", {"case": case}, "rustfmt --backup %s with pre-state %s exits 0 but the file / its .bk are not formatted / original" % (nm, ps)):
                     found += 1
